@@ -35,6 +35,8 @@ lexgen_util = { path = "%s/crates/lexgen_util" }
     for name, body in c12_defs.RAW.items():
         ctor = "L::new_with_state(\"\", 0)" if "L(u32)" in body else "L::new(\"\")"
         bins[name] = pre + "lexgen::lexer! {\n " + body + "\n}\nfn main() { let _ = %s.next(); }\n" % ctor
+    for name, (body, _wd) in c12_defs.KNOWN_SLOW.items():
+        bins[name] = pre + "lexgen::lexer! {\n " + body + "\n}\nfn main() { let _ = L::new(\"\").next(); }\n"
     for name, bodies in c12_defs.MULTI.items():
         bins[name] = pre + "\n".join("lexgen::lexer! {\n " + b + "\n}" for b in bodies) + "\nfn main() {}\n"
     for name, src in bins.items():
@@ -49,7 +51,7 @@ def main():
     t0 = time.time()
     violations, lines, undecided = 0, [], []
     # proved part: termination of the backtrack analysis (Verus), when the unit exists
-    units = [("update_backtracks", 10)] if os.path.exists(os.path.join(C.VERIF, "contracts", "verus", "update_backtracks.vt")) else []
+    units = [("update_backtracks", 30)] if os.path.exists(os.path.join(C.VERIF, "contracts", "verus", "update_backtracks.vt")) else []
     vres = V.run_units(units) if units else []
     vsum = V.summarize(vres) if vres else None
     for r in vres:
@@ -71,22 +73,30 @@ def main():
     def one(name):
         t1 = time.time()
         try:
-            p = subprocess.run(["cargo", "rustc", "--offline", "-q", "--bin", name, "--", "-Awarnings"], cwd=root, capture_output=True, text=True, env=env, timeout=WATCHDOG)
+            wd = c12_defs.KNOWN_SLOW[name][1] if name in c12_defs.KNOWN_SLOW else WATCHDOG
+            p = subprocess.run(["cargo", "rustc", "--offline", "-q", "--bin", name, "--", "-Awarnings"], cwd=root, capture_output=True, text=True, env=env, timeout=wd)
             return name, p.returncode, p.stderr[-3000:], time.time() - t1
         except subprocess.TimeoutExpired:
-            subprocess.run(["pkill", "-f", "bin %s " % name])
-            return name, 124, "expansion/compilation did not finish within %d s" % WATCHDOG, time.time() - t1
+            subprocess.run(["pkill", "-f", "crate-name %s " % name])
+            return name, 124, "expansion/compilation did not finish within %d s" % wd, time.time() - t1
 
     # cargo serialises on the build directory lock; the per-binary time is measured from the moment rustc could start, so run sequentially
     for name in names:
         results.append(one(name))
     samples = []
+    known = C.load_known_findings()
+    known_hit = []
     for (name, rc, err, dt) in results:
         samples.append({"definition": name, "status": "ok" if rc == 0 else ("timeout" if rc == 124 else "error"), "seconds": round(dt, 1)})
         if rc == 0:
             continue
         if rc != 124 and ("could not find `Cargo.toml`" in err or "failed to load" in err):
             undecided.append("cargo trouble on %s: %s" % (name, err[-300:]))
+            continue
+        kf = [f for f in known if f["property"] == PROP and f["obligation"] == "expand-and-compile:" + name]
+        if kf and rc == 124:
+            C.say("KNOWN-FINDING: property=%s %s" % (PROP, kf[0]["witness"]))
+            known_hit.append(name)
             continue
         kind = "expansion does not terminate within the watchdog" if rc == 124 else ("macro panicked" if "proc macro panicked" in err else "generated code does not compile")
         body = "definition %s: %s\n\n---- definition ----\n%s\n\n---- cargo / rustc output ----\n%s\n" % (name, kind, bins[name], err)
@@ -95,11 +105,14 @@ def main():
         violations += 1
     slow = [s for s in samples if s["status"] == "ok" and s["seconds"] > 30]
     ok = sum(1 for s in samples if s["status"] == "ok")
+    for name in c12_defs.KNOWN_SLOW:
+        if any(s["definition"] == name and s["status"] == "ok" for s in samples):
+            C.say("NOTE the known finding on %s is no longer reproduced (it expanded and compiled within its watchdog)" % name)
     proved = [{"obligation": "%s::%s" % (x["unit"], x["obligation"]), "backend": "verus/z3", "status": "ok" if x["discharged"] else "fail"} for x in (vsum["samples"] if vsum else [])]
     cov = {"evaluations": len(samples), "distinct_nontrivial": ok,
            "rule": "every corpus definition (layer C corpus + corpus/c12_defs.py) is expanded by the real macro of the snapshot and compiled by rustc, each as its own binary under a %d s watchdog; "
                    "non-trivial = expands and compiles" % WATCHDOG,
-           "samples": samples, "slow_definitions_over_30s": slow,
+           "samples": samples, "slow_definitions_over_30s": slow, "known_findings_reproduced": known_hit,
            "proved_obligations": proved, "obligations": len(proved), "discharged": sum(1 for p in proved if p["status"] == "ok"),
            "checker_cmd": "cargo rustc --offline --bin <definition> (crate generated in scratch against the snapshot)" + ("; " + "; ".join(r.get("cmd", "") for r in vres) if vres else ""),
            "trusted_base": ["rustc/cargo of the repository toolchain", "the corpus samples the `programs` quantifier"] + (vsum["trusted_fragments"] if vsum else []),
